@@ -202,15 +202,16 @@ def build(x):
     pi = x.method(F, 'JoinKeyedInner', 'process_item')
     pi.add_spec(PROCESS_SPEC)
     pi.sub('V-SUBST', r'self\.(left|right)\.entry\((\w+)\)\.or_default\(\)', r'self.\1.entry_or_default(\2)', detail='`.entry(k).or_default()` -> entry_or_default(k)', must=True)
-    INV_L = ("__i <= {v}@.len(), {v}@ == at(self.right@, key), self.buffer@ == __b0 + pairs_l(key, v1, {v}@.take(__i as int)), self.left@ == old(self).left@, self.right@ == old(self).right@, "
+    INV_L = ("__i <= {v}@.len(), {v}@ == at(self.right@, §key§), self.buffer@ == __b0 + pairs_l(§key§, §v1§, {v}@.take(__i as int)), self.left@ == old(self).left@, self.right@ == old(self).right@, "
              "self.left_ended == old(self).left_ended, self.right_ended == old(self).right_ended, self.prev == old(self).prev, self.coord == old(self).coord,")
-    INV_R = ("__i <= {v}@.len(), {v}@ == at(self.left@, key), self.buffer@ == __b0 + pairs_r(key, {v}@.take(__i as int), v2), self.left@ == old(self).left@, self.right@ == old(self).right@, "
+    INV_R = ("__i <= {v}@.len(), {v}@ == at(self.left@, §key§), self.buffer@ == __b0 + pairs_r(§key§, {v}@.take(__i as int), §v2§), self.left@ == old(self).left@, self.right@ == old(self).right@, "
              "self.left_ended == old(self).left_ended, self.right_ended == old(self).right_ended, self.prev == old(self).prev, self.coord == old(self).coord,")
     for_over_ref_vec(pi, 2, INV_R)
     for_over_ref_vec(pi, 1, INV_L)
-    pi.bind('key', r'BinaryElement::Left\(\((\w+), \w+\)\)')
-    pi.bind('v1', r'BinaryElement::Left\(\(\w+, (\w+)\)\)')
-    pi.bind('v2', r'BinaryElement::Right\(\(\w+, (\w+)\)\)')
+    pi.bind('key', r'BinaryElement::Left\(\((\w+), \w+\)\) =>')
+    pi.bind('v1', r'BinaryElement::Left\(\(\w+, (\w+)\)\) =>')
+    pi.bind('v2', r'BinaryElement::Right\(\(\w+, (\w+)\)\) =>')
+    pi.text = pi.fmt(pi.text)
     # hints: loop entry / step / exit
     pi.text = pi.text.replace('let ghost __b0 = self.buffer@;', 'let ghost __b0 = self.buffer@; proof { assert(__b0 + Seq::<(K, (V1, V2))>::empty() =~= __b0); }')
     pi.text = pi.text.replace('/*@pair_pushed*/', '/*@pair_pushed*/ proof { assert(self.buffer@.len() == __b0.len() + __i); }')
@@ -256,15 +257,16 @@ def build(x):
                f"                                {{ let {e} = {v}.remove(0);{body} proof {{ assert(self.buffer@.take(__b0.len() as int) =~= __b0); }} }} }} }} }}")
         po.text = po.text[:mm.start()] + new + po.text[mm.end():]
         po.note('V-ITER', 1, '`for (k, vs) in M.drain() { if !S.contains(&k) { for v in vs { B } } }` -> loop over M.drain_all() (arbitrary order) and a pop-front loop over vs (B verbatim)')
-    OINV_L = ("__i <= {v}@.len(), {v}@ == at(self.right.data@, key), self.buffer@ == __b0 + opairs_l(key, v1, {v}@.take(__i as int)), self.left == old(self).left || self.left.count == old(self).left.count + 1, "
+    OINV_L = ("__i <= {v}@.len(), {v}@ == at(self.right.data@, §key§), self.buffer@ == __b0 + opairs_l(§key§, §v1§, {v}@.take(__i as int)), self.left == old(self).left || self.left.count == old(self).left.count + 1, "
               "self.left.data@ == old(self).left.data@, self.left.keys@ == old(self).left.keys@, self.left.ended == old(self).left.ended, self.left.count == old(self).left.count + 1, self.right == old(self).right, self.prev == old(self).prev, self.coord == old(self).coord, self.variant == old(self).variant,")
-    OINV_R = ("__i <= {v}@.len(), {v}@ == at(self.left.data@, key), self.buffer@ == __b0 + opairs_r(key, {v}@.take(__i as int), v2), "
+    OINV_R = ("__i <= {v}@.len(), {v}@ == at(self.left.data@, §key§), self.buffer@ == __b0 + opairs_r(§key§, {v}@.take(__i as int), §v2§), "
               "self.right.data@ == old(self).right.data@, self.right.keys@ == old(self).right.keys@, self.right.ended == old(self).right.ended, self.right.count == old(self).right.count + 1, self.left == old(self).left, self.prev == old(self).prev, self.coord == old(self).coord, self.variant == old(self).variant,")
     for_over_ref_vec(po, 2, OINV_R)
     for_over_ref_vec(po, 1, OINV_L)
-    po.bind('key', r'BinaryElement::Left\(\((\w+), \w+\)\)')
-    po.bind('v1', r'BinaryElement::Left\(\(\w+, (\w+)\)\)')
-    po.bind('v2', r'BinaryElement::Right\(\(\w+, (\w+)\)\)')
+    po.bind('key', r'BinaryElement::Left\(\((\w+), \w+\)\) =>')
+    po.bind('v1', r'BinaryElement::Left\(\(\w+, (\w+)\)\) =>')
+    po.bind('v2', r'BinaryElement::Right\(\(\w+, (\w+)\)\) =>')
+    po.text = po.fmt(po.text)
     po.text = po.text.replace('let ghost __b0 = self.buffer@;\n                        while __i', 'let ghost __b0 = self.buffer@; proof { assert(__b0 + Seq::<(K, (Option<V1>, Option<V2>))>::empty() =~= __b0); }\n                        while __i')
     po.text = po.text.replace('/*@pair_pushed*/', '/*@pair_pushed*/ proof { assert(self.buffer@.len() == __b0.len() + __i); }')
     pieces += [jv, "impl JoinVariant {", lo, ro, "}", sh, jo, "impl<K: DataKey + ExchangeData, V1: ExchangeData, V2: ExchangeData> JoinKeyedOuter<K, V1, V2> {", po, "}"]
